@@ -215,3 +215,30 @@ MUTANTS += [
  dict(id='c03-tie-detect-last', props=['C03', 'C02'], file=HJ, old="if len(rankj)> 1 and rankj[1]._place==1:", new="if len(rankj)> 1 and rankj[-1]._place==1:"),
  dict(id='c03-place-for-unplaced', props=['C03'], file=HJ, old="        elif self.highest_cleared_index<0:\n            return ''", new="        elif self.highest_cleared_index<0 and not self.eliminated:\n            return ''"),
 ]
+
+MUTANTS += [
+ dict(id='c08-replay-skips-pass', props=['C08'], file=HJ,
+      old="        for a, v in actions:\n            m = getattr(hj,a)", new="        for a, v in actions:\n            if a=='passed': continue\n            m = getattr(hj,a)"),
+ dict(id='c08-oldpos-leaks', props=['C08', 'C03'], file=HJ,
+      old="                if k == pk:\n                    j._place = pj._place", new="                if k == pk and j.bib > pj.bib:\n                    j._place = pj._place"),
+ dict(id='c08-from-matrix-athlete-major', props=['C08'], file=HJ,
+      old="""            for a in _012:
+                for d in dikts:
+                    if d['order'] in ('DNS','DQ'): continue
+                    bib = d['bib']
+                    name  = d.get('last_name', '')
+                    attempts = d.get(height_key, '')
+                    if len(attempts) > a:
+                        result = attempts[a]""", new="""            for d in dikts:
+                for a in _012:
+                    if d['order'] in ('DNS','DQ'): continue
+                    bib = d['bib']
+                    name  = d.get('last_name', '')
+                    attempts = d.get(height_key, '')
+                    if len(attempts) > a and self.state in ('started', 'jumpoff'):
+                        result = attempts[a]"""),
+ dict(id='c08-matrix-1dp', props=['C08'], file=HJ, old="R = [keys + ['%.2f'%h for h in self.heights]]", new="R = [keys + ['%.1f'%h for h in self.heights]]"),
+ dict(id='c08-won-needs-order', props=['C08', 'C02'], file=HJ,
+      old="                and 'o' in remj[0].attempts_by_height[-1]):", new="                and remj[0].attempts_by_height[-1].endswith('o') and remj[0].dismissed and self.actions[-1][1]==remj[0].bib):"),
+ dict(id='c08-trials-drop-retired', props=['C08'], file=HJ, old="    action_letter = dict(cleared='o', failed='x', passed='-', retired='r')", new="    action_letter = dict(cleared='o', failed='x', passed='-', retired='x')"),
+]
